@@ -266,8 +266,18 @@ def parse_impl(entry, cls, path=None, content=None, data_type=None, file_name=""
 
 # ---------------------------------------------------------------- generators
 def gen_ordinal(rng, kind=None, big=False):
-    c = gen.ordinal_case(rng, m=rng.randint(1, 7 if big else 5), n=rng.randint(1, 7 if big else 5), kind=kind,
-                         max_mult=rng.choice([1, 3, 3, 12, 120]), tie_p=rng.choice([0.2, 0.5, 0.8]))
+    r = rng.random()
+    if r < 0.02:
+        # scale: hundreds of distinct ballots (files of 8 kB and more, several write batches)
+        c = gen.ordinal_case(rng, m=6, n=rng.choice([140, 300, 600]), kind=kind, max_mult=rng.choice([3, 1200]),
+                             allow_big=False)
+    elif r < 0.04:
+        # scale: more than a hundred alternatives (headers of several kB), few ballots
+        c = gen.ordinal_case(rng, m=rng.choice([101, 130, 260]), n=rng.randint(1, 3), kind=kind, max_mult=3,
+                             allow_big=False, style="1m")
+    else:
+        c = gen.ordinal_case(rng, m=rng.randint(1, 7 if big else 5), n=rng.randint(1, 7 if big else 5), kind=kind,
+                             max_mult=rng.choice([1, 3, 3, 12, 120]), tie_p=rng.choice([0.2, 0.5, 0.8]))
     alts = sorted(c["alts"]) if rng.random() < 0.5 else c["alts"]
     extra = rng.random() < 0.2 and c["type"] in ("soi", "toi")
     if extra:
@@ -288,11 +298,14 @@ def gen_ordinal(rng, kind=None, big=False):
 
 def gen_categorical(rng):
     big = rng.random() < 0.08          # two-digit numbers of alternatives and ballots
+    scale = rng.random() < 0.03        # hundreds of ballots (files of 8 kB and more) or dozens of alternatives per line
     m = rng.randint(9, 13) if big else rng.randint(1, 6)
+    if scale:
+        m = rng.choice([8, 40, 70])
     k = rng.choice([1, 2, 3, 4, 2, 3, 10, 12])
     alts = gen.alt_ids(rng, m)
     prefs, seen = [], set()
-    for _ in range(rng.randint(8, 16) if big else rng.randint(1, 6)):
+    for _ in range((rng.choice([300, 650]) if m == 8 else 4) if scale else (rng.randint(8, 16) if big else rng.randint(1, 6))):
         chosen = gen.perm(rng, alts)[: rng.randint(0, m)]
         cuts = sorted(rng.randint(0, len(chosen)) for _ in range(k - 1))
         b = [sorted(chosen[a:b]) if rng.random() < 0.5 else chosen[a:b] for a, b in zip([0] + cuts, cuts + [len(chosen)])]
@@ -300,7 +313,8 @@ def gen_categorical(rng):
             continue
         seen.add(repr(b))
         prefs.append(b)
-    mult = [[b, rng.choice([1, 1, 2, 3, 15])] for b in prefs]
+    mults = [1, 1, 2, 3, 15] if not (big or scale) else [1, 2, 15, 999, 1000, 2 ** 53 + 1, 10 ** 18]
+    mult = [[b, rng.choice(mults)] for b in prefs]
     h = header_fields(rng, "cat")
     h["num_alternatives"] = m
     h["num_voters"] = sum(x for _, x in mult)
@@ -328,7 +342,10 @@ def gen_weight(rng):
 
 def gen_matching(rng):
     big = rng.random() < 0.08          # two-digit numbers of nodes and edges
+    scale = rng.random() < 0.02        # more than a thousand edges (files of 8 kB and more, several write batches)
     m = rng.randint(10, 14) if big else rng.randint(1, 6)
+    if scale:
+        m = 40
     alts = gen.alt_ids(rng, m)
     nodes, weights = [], []
 
@@ -337,7 +354,7 @@ def gen_matching(rng):
             nodes.append([n, []])
 
     history = []
-    for _ in range(rng.randint(15, 40) if big else rng.randint(1, 10)):
+    for _ in range(rng.choice([1100, 2300]) if scale else (rng.randint(15, 40) if big else rng.randint(1, 10))):
         a, b = rng.choice(alts), rng.choice(alts)
         if rng.random() < 0.15:
             b = a
